@@ -302,9 +302,9 @@ func parsimonyACCTRAN(cur, prev *tree.Node, a align.Alignment, seqs []*Ancestral
 			randomlyResolveNodeStates(cur, seqs)
 		}
 
-		// We Analyze each direct child
+		// We Analyze each direct child (tips keep the states given in the alignment)
 		for _, child := range cur.Neigh() {
-			if child != prev {
+			if child != prev && !child.Tip() {
 				for j, ances := range seqs[cur.Id()].seq {
 					state := AncestralState{make([]float64, len(charToIndex))}
 					// Compute the intersection with Parent
